@@ -544,8 +544,15 @@ class Prog:
             while i < k:
                 j = int(rng.integers(i + 1, k + 1))
                 f = None if rng.random() < 0.5 else float(rng.standard_normal())
-                ret = D.add_dyad(self.keep(us[i:j]), self.keep(vs[i:j]), fac=f) if f is not None else \
-                    D.add_dyad(self.keep(us[i:j]), self.keep(vs[i:j]))
+                if n == m and rng.random() < 0.3:
+                    # the symmetric form: v omitted means v = u (also with a factor: fac * u u^T)
+                    for t in range(i, j):
+                        vs[t] = us[t]
+                    ret = D.add_dyad(self.keep(us[i:j]), fac=f) if f is not None else D.add_dyad(self.keep(us[i:j]))
+                    self.ctx.count("symmetric_add_dyad")
+                else:
+                    ret = D.add_dyad(self.keep(us[i:j]), self.keep(vs[i:j]), fac=f) if f is not None else \
+                        D.add_dyad(self.keep(us[i:j]), self.keep(vs[i:j]))
                 for t in range(i, j):
                     fac[t] = 1.0 if f is None else f
                 i = j
